@@ -81,8 +81,9 @@ impl Rule {
 
 pub struct IoParams;
 pub struct GlobalState { pub rules: [Arc<Rule>; MAX_RULES], pub n: usize, pub io_params: IoParams }
+/// read guard over the rule list: derefs to a slice like RwLockReadGuard<Vec<Arc<Rule>>> does (iter, len, get, indexing)
 pub struct RulesGuard<'a>(&'a [Arc<Rule>]);
-impl<'a> RulesGuard<'a> { pub fn iter(&self) -> std::slice::Iter<'a, Arc<Rule>> { self.0.iter() } }
+impl<'a> std::ops::Deref for RulesGuard<'a> { type Target = [Arc<Rule>]; fn deref(&self) -> &[Arc<Rule>] { self.0 } }
 impl GlobalState {
     pub async fn rules(&self) -> RulesGuard<'_> { unsafe { N_RULES_GUARD += 1; } RulesGuard(&self.rules[..self.n]) }
 }
